@@ -109,6 +109,42 @@ def runOp (op : String) : P String := do
   | "find" =>
     let n ← P.nat; let ls ← P.many n P.str; let q ← P.str; let sub ← P.bool
     pure ("ok " ++ Out.join ((findLabels ls q sub).map toString))
+  | "tg_add" =>
+    let g ← P.tg (α := α); let t ← P.anyTier; let i ← P.opt P.int; let r ← P.report
+    pure (Out.exc Out.tg (g.addTier t i r))
+  | "tg_remove" =>
+    let g ← P.tg (α := α); let n ← P.str
+    pure (Out.exc Out.tg (g.removeTier n))
+  | "tg_rename" =>
+    let g ← P.tg (α := α); let o ← P.str; let n ← P.str
+    pure (Out.exc Out.tg (g.renameTier o n))
+  | "tg_replace" =>
+    let g ← P.tg (α := α); let n ← P.str; let t ← P.anyTier; let r ← P.report
+    pure (Out.exc Out.tg (g.replaceTier n t r))
+  | "tg_crop" =>
+    let g ← P.tg (α := α); let a ← P.time; let b ← P.time; let m ← P.cropMode; let r ← P.bool
+    pure (Out.exc Out.tg (g.crop a b m r))
+  | "tg_erase" =>
+    let g ← P.tg (α := α); let a ← P.time; let b ← P.time; let sh ← P.bool
+    pure (Out.exc Out.tg (g.eraseRegion a b sh))
+  | "tg_space" =>
+    let g ← P.tg (α := α); let s ← P.time; let d ← P.time; let m ← P.spaceMode
+    pure (Out.exc Out.tg (g.insertSpace s d m))
+  | "tg_shift" =>
+    let g ← P.tg (α := α); let o ← P.time; let r ← P.report
+    pure (Out.exc Out.tg (g.editTimestamps o r))
+  | "tg_validate" =>
+    let g ← P.tg (α := α)
+    pure ("ok " ++ Out.bool g.validate)
+  | "tg_merge" =>
+    let g ← P.tg (α := α); let sel ← P.opt (do let n ← P.nat; P.many n P.str); let pr ← P.bool
+    pure (Out.exc Out.tg (g.mergeTiers sel pr))
+  | "tg_append" =>
+    let g ← P.tg (α := α); let h ← P.tg; let om ← P.bool
+    pure (Out.exc Out.tg (g.appendTextgrid h om))
+  | "tg_align" =>
+    let g ← P.tg (α := α); let n ← P.str; let md ← P.time
+    pure (Out.exc Out.tg (g.alignBoundaries n md))
   | _ => throw s!"unknown op {op}"
 where
   /-- the reference tier of dejitter: either tier kind, reduced to its timestamps -/
